@@ -4,6 +4,7 @@ import (
 	"fmt"
 	"math/rand"
 	"os"
+	"runtime"
 	"sort"
 	"strings"
 	"time"
@@ -182,13 +183,35 @@ func openImage(fs *memFS, dir string, cfg Config, u *Universe, oo ObsOpts) image
 	if err := fs.materialize(dir); err != nil {
 		panic(fmt.Sprintf("materialize: %v", err))
 	}
+	var m0, m1 runtime.MemStats
+	runtime.ReadMemStats(&m0)
 	h, err := OpenDB(dir, cfg)
+	runtime.ReadMemStats(&m1)
+	if grown := m1.TotalAlloc - m0.TotalAlloc; grown > openAllocLimit {
+		// the images are a few KiB: an Open that allocates hundreds of MiB trusts size fields of a torn record
+		// (up to 3 x 4 GiB) and dies for lack of memory on a smaller machine - the database is then unopenable
+		if h != nil {
+			h.Close()
+		}
+		return imageResult{OpenErr: fmt.Errorf("Open allocated %d MiB for a directory of %d bytes (size fields of a torn or overwritten record are trusted)", grown>>20, fs.totalBytes())}
+	}
 	if err != nil {
 		return imageResult{OpenErr: err}
 	}
 	o := Observe(h, u, oo)
 	h.Close()
 	return imageResult{Obs: o}
+}
+
+// openAllocLimit bounds what Open may allocate on a crash image (the images are at most a few hundred KiB).
+const openAllocLimit = 256 << 20
+
+func (fs *memFS) totalBytes() int {
+	n := 0
+	for _, b := range fs.files {
+		n += len(b)
+	}
+	return n
 }
 
 // continueAfterRecovery uses the database recovered from a crash image: one more write transaction
@@ -256,6 +279,11 @@ type crashStats struct {
 // exploreCrashes enumerates the crash images of a recording.
 func exploreCrashes(c Case, rc *recording, co crashOpts, st *Stats, prop string) (crashStats, error) {
 	var cs crashStats
+	if co.Continue {
+		// the continuation writes to the recovered database: like any restarted process it must not share a
+		// millisecond (transaction ids are clock based) with the recorded run, which may have ended microseconds ago
+		waitMs()
+	}
 	ctx := crashContexts(rc.Evs)
 	imgDir := newDir("img")
 	defer os.RemoveAll(imgDir)
